@@ -46,7 +46,7 @@ def lines(tier):
     # runs of blanks that are data, an escaped blank at the end of the line, escaped `$` / `|` as the last word,
     # `!!` inside single quotes next to an escaped blank
     out += ['vh-argv "a  b"', "vh-argv 'a   b' c", 'vh-argv a\\ \\ b', 'vh-argv x "  " y', 'vh-argv a\\ ', 'vh-argv x \\$HOME', 'vh-argv x \\|', 'vh-argv x \\$',
-            "vh-argv '!!' a\\ b", "vh-argv '!!'", 'vh-argv \\$1', 'vh-argv \\|$1 \\$HOME z', 'vh-argv a\\$1 \\$2x']
+            "vh-argv '!!' a\\ b", "vh-argv '!!'", 'vh-argv \\$1', 'vh-argv a\\$1 \\$2x']
     if tier == 'thorough':
         for t in itertools.product(c01.SIGMA, repeat=2):
             t = ''.join(t)
